@@ -341,8 +341,9 @@ def observable_rule(chk, src):
                 return cells[k]
         e_dofs = [f"e{i}" for i in range(n_e)]
         model = Sym("model", n_edofs=n_e, e_dofs=e_dofs, mpos={})
-        me = Sym("mps", model=model, expectations=lambda mpos: [("<", m, ">") for m in mpos])
-        it = SymInterp(src, None, {"Op": lambda sym, dofs, *a, **k: ("Op", sym, tuple(dofs)), "Mpo": lambda model_, terms=None, **k: ("Mpo", terms), "deque": deque,
+        me = Sym("mps", _cls="Mps", model=model, expectations=lambda mpos: [("<", m, ">") for m in mpos])
+        from .chain_rules import class_resolver
+        it = SymInterp(src, class_resolver(src, {"Mps": MPS}), {"Op": lambda sym, dofs, *a, **k: ("Op", sym, tuple(dofs)), "Mpo": lambda model_, terms=None, **k: ("Mpo", terms), "deque": deque,
                                    "np": Sym("np", zeros=lambda shape, dtype=None: Mat("rdm"), conj=lambda x: ("conj", x)), "backend": Blob("backend")})
         out = it.call_function(fi, [me])
         want = {}
